@@ -558,12 +558,11 @@ def _wrap(run, P):
                "directly, the guards of introduced statements are silently dropped")
     if any(dotted(n.func) == "self.wrap_statement" for n in via):
         w = P.func(f"{MOD}.ASTStatementRewriter.wrap_statement")
-        ok = False
-        for n in ast.walk(w.node):
-            if isinstance(n, ast.If) and norm(n.test) == "stmt.condition is not True":
-                from ..engine.match import leaves_with
-                ok = leaves_with(n.body, ast.Return,
-                                 "IfThen(stmt.condition, StatementWrapper(stmt.copy(condition=True)))")
+        from .util import split_by
+        _, wt_, wf_ = split_by(w.node, lambda t: t == "stmt.condition is not True", kinds=(ast.Return,))
+        ok = any(r_.value is not None and norm(r_.value) ==
+                 "IfThen(stmt.condition, StatementWrapper(stmt.copy(condition=True)))" for r_ in wt_) \
+            and bool(wf_)
         run.ob("C07.guard", w, w.node, ok,
                construct="condition is not True -> IfThen(condition, wrapper(copy(condition=True)))",
                why="the guard must be expressed in the AST exactly once")
